@@ -1,7 +1,7 @@
 (** C09 - Background work is durable and recurring maintenance never stops.
     Only statements: each theorem is closed by [exact] of a lemma proved elsewhere. *)
 From Coq Require Import String.
-From KV Require Import base.Tac queue.Queue queue.QueueProofs queue.QueueSpec queue.TaskName gen.GenQueue.
+From KV Require Import base.Tac queue.Queue queue.QueueProofs queue.QueueSpec queue.TaskName queue.QueueCheck queue.QueueOracleProofs gen.GenQueue.
 Open Scope N_scope.
 
 (** Due tasks are handed out earliest first. *)
@@ -101,6 +101,30 @@ Proof. exact name_injective_without_underscore. Qed.
 Theorem C09_task_name_injective_refuted : ~ name_injective_full.
 Proof. exact name_injective_refuted. Qed.
 
+(** The executable oracle evaluated on the implementation's transitions (nothing lost, earliest due first, the
+    scheduling modes, everything running is pending again after a restart) is met by EVERY outcome of EVERY
+    operation of the model on EVERY queue - so an implementation transition that agrees with the model
+    satisfies it, and an oracle failure always is a disagreement with the model. *)
+Theorem C09_model_step_meets_oracle : forall q o q' r,
+  In (q', r) (step q o) -> c09_ok (mkCase q o q' r) = true.
+Proof. exact step_meets_oracle. Qed.
+
+Theorem C09_agrees_meets_oracle : forall c, agrees c = true -> c09_ok c = true.
+Proof. exact agrees_meets_oracle. Qed.
+
+(** After a restart every task that was running is pending again - with no hypothesis on the keys. *)
+Theorem C09_restart_running_becomes_pending_any : forall now_of q e,
+  In e (run q) -> In (e_name e) (map e_name (pend (startup now_of q))).
+Proof. exact restart_running_becomes_pending_any. Qed.
+
+(** Storage keys are distinct within each scope in every queue reachable from the empty one. *)
+Theorem C09_keys_distinct_in_reachable_queues : forall os q, steps (mkQ [] []) os q -> wf q.
+Proof. exact wf_reachable. Qed.
+
+Print Assumptions C09_model_step_meets_oracle.
+Print Assumptions C09_agrees_meets_oracle.
+Print Assumptions C09_restart_running_becomes_pending_any.
+Print Assumptions C09_keys_distinct_in_reachable_queues.
 Print Assumptions C09_task_name_injective_without_underscore.
 Print Assumptions C09_task_name_injective_refuted.
 Print Assumptions C09_claim_earliest.
